@@ -252,6 +252,9 @@ func (b *Blob) Grow(off int64) error {
 	if off < 0 {
 		return fmt.Errorf("negative grow size: %d", off)
 	}
+	if off == 0 {
+		return nil // keep the buffer (and any aliasing views) as it is
+	}
 	newLength := atomic.LoadInt64(&b.length) + off
 
 	buf := b.jsValue.Load().(safejs.Value)
@@ -280,8 +283,8 @@ func (b *Blob) Truncate(size int64) error {
 	if size < 0 {
 		return fmt.Errorf("negative truncate size: %d", size)
 	}
-	if atomic.LoadInt64(&b.length) < size {
-		return nil
+	if atomic.LoadInt64(&b.length) <= size {
+		return nil // nothing to cut off: keep the buffer (and any aliasing views) as it is
 	}
 
 	value := safejs.Safe(b.JSValue())
